@@ -16,45 +16,30 @@ import SJ.Spec.ValueOf
 namespace SJ.Proofs.ToValueKeys
 open SJ SJ.Spec.Program SJ.Spec.Image SJ.Spec.ValueOf SJ.Model.ToValue
 
-theorem keyVal_eq_keyText (ext : Ext) : ∀ k : SVal, keyIsSome k = false → keyVal ext k = keyText ext k
-  | .some _ => by intro h; simp [keyIsSome] at h
-  | .newtypeStruct k => by
-    intro h
-    simp only [keyVal, keyText]
-    exact keyVal_eq_keyText ext k (by simpa [keyIsSome] using h)
-  | .bool b => by intro _; cases b <;> rfl
-  | .int _ _ => fun _ => rfl
-  | .f32 _ => fun _ => rfl
-  | .f64 _ => fun _ => rfl
-  | .char _ => fun _ => rfl
-  | .str _ => fun _ => rfl
-  | .bytes _ => fun _ => rfl
-  | .none => fun _ => rfl
-  | .unit => fun _ => rfl
-  | .unitStruct => fun _ => rfl
-  | .unitVariant _ => fun _ => rfl
-  | .newtypeVariant _ _ => fun _ => rfl
-  | .seq _ _ => fun _ => rfl
-  | .tuple _ => fun _ => rfl
-  | .tupleStruct _ => fun _ => rfl
-  | .tupleVariant _ _ => fun _ => rfl
-  | .map _ _ => fun _ => rfl
-  | .struct_ _ => fun _ => rfl
-  | .structVariant _ _ => fun _ => rfl
-  | .collectStr _ => fun _ => rfl
-  | .numberLit _ => fun _ => rfl
-
-/-- whatever is wrapped, `Some(_)` as a key is `key must be a string` for `value::ser::MapKeySerializer` -/
-theorem keyVal_some (ext : Ext) : ∀ k : SVal, keyIsSome k = true → keyVal ext k = .error .keyMustBeAString
-  | .some _ => fun _ => rfl
-  | .newtypeStruct k => by
-    intro h
-    simp only [keyVal]
-    exact keyVal_some ext k (by simpa [keyIsSome] using h)
-  | .bool _ | .int _ _ | .f32 _ | .f64 _ | .char _ | .str _ | .bytes _ | .none | .unit | .unitStruct
-  | .unitVariant _ | .newtypeVariant _ _ | .seq _ _ | .tuple _ | .tupleStruct _ | .tupleVariant _ _
-  | .map _ _ | .struct_ _ | .structVariant _ _ | .collectStr _ | .numberLit _ => by
-    intro h; simp [keyIsSome] at h
+theorem keyVal_eq_keyText (ext : Ext) : ∀ k : SVal, keyVal ext k = keyText ext k
+  | .some k => by simp only [keyVal, keyText]; exact keyVal_eq_keyText ext k
+  | .newtypeStruct k => by simp only [keyVal, keyText]; exact keyVal_eq_keyText ext k
+  | .bool b => by cases b <;> rfl
+  | .int _ _ => rfl
+  | .f32 _ => rfl
+  | .f64 _ => rfl
+  | .char _ => rfl
+  | .str _ => rfl
+  | .bytes _ => rfl
+  | .none => rfl
+  | .unit => rfl
+  | .unitStruct => rfl
+  | .unitVariant _ => rfl
+  | .newtypeVariant _ _ => rfl
+  | .seq _ _ => rfl
+  | .tuple _ => rfl
+  | .tupleStruct _ => rfl
+  | .tupleVariant _ _ => rfl
+  | .map _ _ => rfl
+  | .struct_ _ => rfl
+  | .structVariant _ _ => rfl
+  | .collectStr _ => rfl
+  | .numberLit _ => rfl
 
 /-! ## the dispatch tables extracted from the source -/
 
